@@ -1517,6 +1517,16 @@ func ruleR1510(c *Ctx) {
 	// unchangedParam: e is a string parameter of fn that is never assigned in fn (or a local with one definition that is one)
 	var unchangedParam func(info *types.Info, fn ast.Node, e ast.Expr, depth int) (bool, string)
 	unchangedParam = func(info *types.Info, fn ast.Node, e ast.Expr, depth int) (bool, string) {
+		// a conversion (string(b)) changes nothing
+		if call, ok := ast.Unparen(e).(*ast.CallExpr); ok && len(call.Args) == 1 && depth < 3 {
+			if tv, isT := info.Types[call.Fun]; isT && tv.IsType() {
+				if id, isID := ast.Unparen(call.Args[0]).(*ast.Ident); isID {
+					if v, isVar := info.ObjectOf(id).(*types.Var); isVar && countAssignments(info, fn, v) == 0 {
+						return true, ""
+					}
+				}
+			}
+		}
 		// cutting a constant that holds no line break off one end (a byte order mark) removes no line
 		if call, ok := ast.Unparen(e).(*ast.CallExpr); ok && len(call.Args) == 2 && depth < 3 {
 			if cal := Callee(info, call); cal != nil && cal.Pkg() != nil && cal.Pkg().Path() == "strings" {
